@@ -213,7 +213,37 @@ async fn main(plan: Plan) -> Outcome {
         let mut st = Statement::new(client::q_marker(m));
         st.set_is_idempotent(idempotent);
         let t0 = world::now_ns();
-        let res = tokio::time::timeout(Duration::from_secs(120), session.query_unpaged(st, ())).await;
+        // The same execution core is reached through several APIs. The outcome is
+        // normalised to Ok(rows ok?) / Err(error class).
+        let api = tape::weighted("c13:api", &[3, 2]);
+        let res: Result<Result<Result<(), String>, (&'static str, String)>, tokio::time::error::Elapsed> =
+            tokio::time::timeout(Duration::from_secs(120), async {
+                match api {
+                    0 => match session.query_unpaged(st, ()).await {
+                        Ok(qr) => Ok(client::check_marker_rows(qr, m)),
+                        Err(e) => Err((classify(&e), client::short_err(&e))),
+                    },
+                    _ => {
+                        use futures::StreamExt;
+                        use scylla::errors::{NextPageError, PagerExecutionError};
+                        match session.query_iter(st, ()).await {
+                            Ok(pager) => match pager.rows_stream::<(i64,)>() {
+                                Ok(mut rs) => match rs.next().await {
+                                    Some(Ok((v,))) if v == m as i64 => Ok(Ok(())),
+                                    other => Ok(Err(format!("paged request marker {m} yielded {other:?}"))),
+                                },
+                                Err(e) => Ok(Err(format!("type check: {e}"))),
+                            },
+                            Err(PagerExecutionError::NextPageError(NextPageError::RequestFailure(e))) => {
+                                let e = e.into_execution_error();
+                                Err((classify(&e), client::short_err(&e)))
+                            }
+                            Err(e) => Err(("other", format!("{e}").chars().take(100).collect())),
+                        }
+                    }
+                }
+            })
+            .await;
         let t1 = world::now_ns();
         let frames = {
             let mut w = world::world();
@@ -230,7 +260,7 @@ async fn main(plan: Plan) -> Outcome {
             f
         };
         let ctx = format!(
-            "marker {m} idempotent={idempotent} max={} d={}ms fallthrough={} t0={}ms t1={}ms frames={:?}",
+            "marker {m} idempotent={idempotent} api={api} max={} d={}ms fallthrough={} t0={}ms t1={}ms frames={:?}",
             plan.max_spec,
             plan.interval / MS,
             plan.fallthrough,
@@ -310,7 +340,7 @@ async fn main(plan: Plan) -> Outcome {
                 let want_def = tied.iter().any(|f| matches!(f.out, Out::Definitive(_)));
                 let got = match &res {
                     Ok(_) => "success",
-                    Err(e) => classify(e),
+                    Err((c, _)) => *c,
                 };
                 let acceptable = (got == "success" && want_ok) || (got == "definitive" && want_def);
                 if !acceptable {
@@ -328,12 +358,8 @@ async fn main(plan: Plan) -> Outcome {
                 if t1 + margin < first.respond_at {
                     out.violation("c13.returned_early", format!("call returned before any real answer was sent: {ctx}"));
                 }
-                if got == "success" {
-                    if let Ok(qr) = res {
-                        if let Err(e) = client::check_marker_rows(qr, m) {
-                            out.violation("c13.attribution", e);
-                        }
-                    }
+                if let Ok(Err(e)) = &res {
+                    out.violation("c13.attribution", e.clone());
                 }
             } else if !frames.is_empty() {
                 // (e) no real answer: the call fails with an ignorable error, not before
@@ -341,10 +367,9 @@ async fn main(plan: Plan) -> Outcome {
                 let last_done = frames.iter().map(|f| f.respond_at).max().unwrap();
                 match &res {
                     Ok(_) => out.violation("c13.success_from_nothing", format!("call succeeded without any successful attempt: {ctx}")),
-                    Err(e) => {
-                        let c = classify(e);
-                        if c != "ignorable" && c != "pool" && c != "empty_plan" {
-                            out.violation("c13.last_error", format!("call failed with a {c} error ({}) but all attempts ended with ignorable errors: {ctx}", client::short_err(e)));
+                    Err((c, text)) => {
+                        if *c != "ignorable" && *c != "pool" && *c != "empty_plan" {
+                            out.violation("c13.last_error", format!("call failed with a {c} error ({text}) but all attempts ended with ignorable errors: {ctx}"));
                         }
                     }
                 }
